@@ -390,9 +390,14 @@ def gen_bytes(rng: random.Random, n: int) -> bytes:
     return bytes(out)
 
 
-def accepted_input(rng, parse, tries=4, start_len=48):
+INTERNAL_ERRORS = ("UnboundLocalError", "AttributeError", "NameError", "TypeError", "KeyError", "IndexError", "error", "AssertionError")
+
+
+def accepted_input(rng, parse, tries=4, start_len=48, stats=None):
     """Find bytes the fault-free reference parse accepts. parse(data) -> consumed length or raises.
-    Returns (data, consumed) or None."""
+    Returns (data, consumed) or None. Inputs the reference rejects are outside the domain of the differential checks; when
+    the rejection looks like an internal error rather than bad data it is counted as a reach probe so that it shows in the
+    evidence instead of silently shrinking the domain."""
     n = start_len
     for _ in range(tries):
         data = gen_bytes(rng, n)
@@ -401,7 +406,9 @@ def accepted_input(rng, parse, tries=4, start_len=48):
             return data, used
         except EOFError:
             n *= 2
-        except Exception:
+        except Exception as e:  # noqa: BLE001
+            if stats is not None and type(e).__name__ in INTERNAL_ERRORS:
+                stats.count("probe.reference_parse_internal_error_" + type(e).__name__)
             n = start_len
     return None
 
